@@ -168,6 +168,15 @@ impl Prop for C11 {
                 super::decorate_role(&mut rng, r);
             }
         }
+        if !sweep {
+            let lens: Vec<usize> = docs.iter().map(|d| d.ser().len()).collect();
+            let alens: Vec<usize> = alts.iter().map(|a| a.as_ref().map(|d| d.ser().len()).unwrap_or(0)).collect();
+            super::maybe_park(&mut rng, &mut replicas, 10, &|inp| match inp {
+                Input::Doc(i) => lens[*i],
+                Input::Alt(i) => alens[*i],
+                Input::Raw(b) => b.len(),
+            });
+        }
         let derive = rng.pick(&["Serialize, Deserialize", ""]).to_string();
         Scenario::Session(Session { docs, alts, replicas, opts: all_opts(&derive) })
     }
